@@ -179,7 +179,12 @@ func (p *Pipe) AddFault(f Fault) {
 	p.net.S.Lock()
 	ff := f
 	p.faults = append(p.faults, &ff)
+	// a fault whose offset has already been delivered takes effect now
+	p.checkImmediateFaults()
+	p.wakeReader()
+	p.wakeWriter()
 	p.net.S.Unlock()
+	p.net.S.Notify()
 }
 
 func (p *Pipe) Name() string { return p.name }
